@@ -551,3 +551,29 @@ def K2b(inp):
         cl['second_reports_own_timing'] = Iff(bool(got2[0][0]), And(g2, Not(late2)))
     cl['late_successes_released'] = And(Iff(any(c[1] == 'L1' for c in rel), And(g1, late1)), Iff(any(c[1] == 'L2' for c in rel), And(g2, late2)))
     return Res(cl, nontrivial=Or(And(g1, late1), And(g2, late2)), obs=lambda: dict(got1=show(got1), got2=show(got2), calls=show(impl.calls), exc=show(exc)))
+
+
+@obligation('B3', props=('C15',), quick=[dict(k=6, mid=m) for m in range(7)], thorough=[dict(k=7, mid=m) for m in range(8)], stubs=('none',),
+            bounds='k<=7 puts of symbolic priorities 0..9 (every relative order), optionally a get in the middle, then drain')
+def B3(inp, k, mid):
+    """priority queue over longer histories: after any k puts (and a get in between) draining returns the items in
+    non-decreasing order and exactly the multiset that was put (what a heap gives)."""
+    q = bt.ReplPriorityQueue()
+    xs = [inp.int('v%d' % i, 0, 9) for i in range(k)]
+    # mid = after how many puts one get happens (k = no get in the middle)
+    got = []
+    for i, x in enumerate(xs):
+        q.put(x, _doApply=True)
+        if i + 1 == mid:
+            got.append(q.get(_doApply=True))
+    out = []
+    while not q.empty():
+        out.append(q.get(_doApply=True))
+        if len(out) > k + 1:
+            break
+    allout = got + out
+    cl = {}
+    cl['drain_sorted'] = And([out[i] <= out[i + 1] for i in range(len(out) - 1)] or [True])
+    cl['middle_get_is_minimum_so_far'] = And([got[0] <= x for x in xs[:mid]]) if got else True
+    cl['same_multiset'] = And([Eq(Count([Eq(x, v) for x in xs]), Count([Eq(y, v) for y in allout])) for v in range(10)]) if len(allout) == k else False
+    return Res(cl, nontrivial=True, obs=lambda: dict(puts=show(xs), mid=mid, out=show(allout)))
